@@ -4,7 +4,7 @@ import os
 from .. import core
 from ..canvasrun import CanvasRunner, gen_config
 
-MODULES = ["Robsd.Props.C04", "Robsd.Props.C04Wait"]
+MODULES = ["Robsd.Props.C04", "Robsd.Props.C04Wait", "Robsd.Props.C04Kill"]
 GENS = []
 
 
